@@ -640,11 +640,11 @@ Qed.
 (* ------------------------------------------------------------------------------------------------ *)
 (* How a step changes the handler table                                                             *)
 
-Definition phase_step (e : label) (a : nat) (p p' : hphase) : Prop :=
+Definition phase_step (e : label) (a : nat) (sem : bool) (p p' : hphase) : Prop :=
   match e with
   | EStart x => x = a /\ p = HFresh /\ exists sk, p' = HRun sk
-  | EEnd x _ => x = a /\ (exists sk, p = HRun sk) /\ (p' = HEnded \/ p' = HTrig (trig G a))
-  | EClose => a = root G /\ p = HFresh /\ (p' = HEnded \/ p' = HTrig (trig G a))
+  | EEnd x _ => x = a /\ (exists sk, p = HRun sk) /\ p' = (if sem then HEnded else HTrig (trig G a))
+  | EClose => a = root G /\ p = HFresh /\ p' = (if sem then HEnded else HTrig (trig G a))
   | ERel x => x = a /\ p = HEnded /\ p' = HTrig (trig G a)
   | EDec x b => x = a /\ exists ts, p = HTrig (b :: ts) /\ (p' = HSend b ts \/ p' = HTrig ts)
   | EEnq x b => x = a /\ exists ts, p = HSend b ts /\ p' = HTrig ts
@@ -660,7 +660,7 @@ Qed.
 Lemma th_step : forall s g free e s' f', Inv s g -> step s free e = Some (s', f') -> forall a,
   get (th s') a = get (th s) a
   \/ (get (th s) a = None /\ (e = ESpawn a \/ e = EInline a) /\ exists sem inl, get (th s') a = Some (mkth HFresh sem inl))
-  \/ (exists t p', get (th s) a = Some t /\ get (th s') a = Some (mkth p' (hsem t) (hinl t)) /\ phase_step e a (hph t) p').
+  \/ (exists t p', get (th s) a = Some t /\ get (th s') a = Some (mkth p' (hsem t) (hinl t)) /\ phase_step e a (hsem t) (hph t) p').
 Proof.
   intros s g free e s' f' I H a.
   destruct e.
@@ -674,7 +674,6 @@ Proof.
     eexists. eexists. split. eassumption. split. reflexivity. simpl. rewrite Heqh. eauto.
   - destr_step H. psimpl. cases a a0; gsimp; [| left; reflexivity]. right. right.
     eexists. eexists. split. eassumption. split. reflexivity. simpl. rewrite Heqh. split; auto. split; eauto.
-    destruct (after_end_cases t a0) as [[_ ->] | [_ ->]]; auto.
   - destr_step H. psimpl. cases a a0; gsimp; [| left; reflexivity]. right. right.
     eexists. eexists. split. eassumption. split. reflexivity. simpl. rewrite Heqh. auto.
   - unfold C06.step in H.
@@ -687,8 +686,7 @@ Proof.
   - destr_step H. bsplit. psimpl. cases a a0; gsimp; [| left; reflexivity]. right. right.
     eexists. eexists. split. eassumption. split. reflexivity. simpl. rewrite Heqh. split; auto. eauto.
   - destr_step H. psimpl. cases a (root G); gsimp; [| left; reflexivity]. right. right.
-    eexists. eexists. split. eassumption. split. reflexivity. simpl. rewrite Heqh. split; auto. split; auto.
-    destruct (after_end_cases t (root G)) as [[_ ->] | [_ ->]]; auto.
+    eexists. eexists. split. eassumption. split. reflexivity. simpl. rewrite Heqh. split; auto.
   - destr_step H. left. reflexivity.
 Qed.
 
@@ -726,7 +724,7 @@ Proof.
   - rewrite E1, E3. simpl. destruct E2 as [-> | ->]; reflexivity.
   - rewrite E1, E2. simpl. destruct e; simpl in E3; try contradiction.
     + destruct E3 as [-> [-> [sk ->]]]. simpl. rewrite Nat.eqb_refl. reflexivity.
-    + destruct E3 as [-> [[sk ->] [-> | ->]]]; reflexivity.
+    + destruct E3 as [-> [[sk ->] ->]]; destruct (hsem t); reflexivity.
     + destruct E3 as [-> [-> ->]]; reflexivity.
     + destruct E3 as [-> [ts [-> [-> | ->]]]]; reflexivity.
     + destruct E3 as [-> [ts [-> ->]]]; reflexivity.
@@ -1098,7 +1096,34 @@ Proof.
   rewrite <- (failed_iff_sol _ S a Ha). destruct (get (res s) a); simpl; split; intros; congruence.
 Qed.
 
+Lemma sol_of_inv : forall s g, Inv s g -> InvF s -> closed s = true ->
+  sol (get (res s)) /\ forall a, In a (nodes G) -> get (failed s) a = isNone (get (res s) a).
+Proof.
+  intros s g I F Hc.
+  assert (Hd : forall a, In a (nodes G) -> get (dn s) a = true /\ a <> root G).
+  { intros a Ha. split. eapply closed_all_dn; eauto. right; assumption.
+    intro. subst. apply (wf_root G WF). assumption. }
+  split; intros a Ha; destruct (Hd a Ha); apply (f_dn _ F); auto.
+Qed.
+
 End Exec.
+
+Lemma InvF_ext : forall (exec exec' : nat -> (nat -> option R) -> option R) s, (forall a m, exec a m = exec' a m) -> InvF exec s -> InvF exec' s.
+Proof.
+  intros exec exec' s E F. constructor; intros.
+  - apply (f_fresh _ _ F). assumption.
+  - eapply (f_run _ _ F); eauto.
+  - destruct (f_dn _ _ F a H H0) as [A B]. split; auto. unfold eqn_at in *. rewrite <- E. assumption.
+Qed.
+
+Lemma evalD_ext : forall (exec exec' : nat -> (nat -> option R) -> option R) l m0, (forall a m, exec a m = exec' a m) -> forall x, evalD G exec l m0 x = evalD G exec' l m0 x.
+Proof.
+  intros exec exec' l m0 E. unfold evalD. revert m0. induction l; simpl; intros. reflexivity.
+  rewrite E. apply IHl.
+Qed.
+
+Lemma den_ext : forall (exec exec' : nat -> (nat -> option R) -> option R), (forall a m, exec a m = exec' a m) -> forall x, den G exec x = den G exec' x.
+Proof. intros. unfold den. apply evalD_ext. assumption. Qed.
 
 (* ------------------------------------------------------------------------------------------------ *)
 (* Progress                                                                                          *)
@@ -1673,6 +1698,53 @@ Proof.
   destruct (h_done _ _ _ Hh Hm) as [Hc Hi].
   assert (In a (km h)). { apply Hi. eapply kok_all; eauto. apply (h_kcl _ _ _ Hh). apply (h_closed _ _ _ Hh). assumption. }
   split. assumption. apply (h_km _ _ _ Hh a H).
+Qed.
+
+(* ------------------------------------------------------------------------------------------------ *)
+(* Tokens                                                                                             *)
+
+(* handler a holds a token it has not released yet *)
+Definition holdsb (s : lstate) (a : nat) : bool :=
+  match get (th s) a with Some t => hsem t && prerel (hph t) | None => false end.
+
+Lemma free_step : forall (s : lstate) free (e : label) s' f', step s free e = Some (s', f') ->
+  match e with ESpawn _ => 0 < free /\ f' = free - 1 | ERel _ => f' = S free | _ => f' = free end.
+Proof.
+  intros. destruct e; try (destr_step H; bsplit; auto; fail).
+  destr_step H. bsplit. split; auto. apply Nat.ltb_lt. assumption.
+Qed.
+
+Lemma holds_step : forall s g free e s' f', Inv s g -> step s free e = Some (s', f') -> forall a,
+  holdsb s' a = match e with
+                | ESpawn b => if a =? b then true else holdsb s a
+                | ERel b => if a =? b then false else holdsb s a
+                | _ => holdsb s a
+                end
+  /\ (e = ERel a -> holdsb s a = true) /\ (e = ESpawn a -> holdsb s a = false).
+Proof.
+  intros s g free e s' f' I H a.
+  assert (Hsp : e = ESpawn a -> holdsb s a = false).
+  { intros ->. destr_step H. bsplit. name_main. unfold holdsb. rewrite (held_no_thread _ _ _ I Hm). reflexivity. }
+  assert (Hrl : e = ERel a -> holdsb s a = true).
+  { intros ->. destr_step H. name_th. unfold holdsb. rewrite Ht, Hp. simpl. rewrite andb_true_r. assumption. }
+  split; [| split; assumption].
+  unfold holdsb.
+  destruct (th_step _ _ _ _ _ _ I H a) as [E | [[E1 [E2 [sem [inl E3]]]] | [t [p' [E1 [E2 E3]]]]]].
+  - rewrite E. destruct e; auto.
+    + destruct (Nat.eqb_spec a b); auto. subst. exfalso. destr_step H. bsplit. name_main. psimpl. gsimp.
+      rewrite (held_no_thread _ _ _ I Hm) in E. discriminate E.
+    + destruct (Nat.eqb_spec a a0); auto. subst. exfalso. destr_step H. psimpl. gsimp.
+      match goal with Hx : Some _ = Some ?t, Hy : hph ?t = HEnded |- _ => inversion Hx as [Et]; rewrite <- Et in Hy; simpl in Hy; discriminate Hy end.
+  - rewrite E1, E3. simpl. destruct E2 as [-> | ->].
+    + rewrite Nat.eqb_refl. destr_step H. bsplit. psimpl. gsimp. inversion E3; subst. reflexivity.
+    + destr_step H. bsplit. psimpl. gsimp. inversion E3; subst. reflexivity.
+  - rewrite E1, E2. simpl. destruct e; simpl in E3; try contradiction.
+    + destruct E3 as [-> [-> [sk ->]]]. reflexivity.
+    + destruct E3 as [-> [[sk ->] ->]]. destruct (hsem t); reflexivity.
+    + destruct E3 as [-> [-> ->]]. rewrite Nat.eqb_refl. simpl. rewrite andb_false_r. reflexivity.
+    + destruct E3 as [-> [ts [-> [-> | ->]]]]; simpl; rewrite !andb_false_r; reflexivity.
+    + destruct E3 as [-> [ts [-> ->]]]. simpl. rewrite !andb_false_r. reflexivity.
+    + destruct E3 as [-> [-> ->]]. destruct (hsem t); reflexivity.
 Qed.
 
 End LevelProofs.
